@@ -26,7 +26,7 @@ def run(ctx):
         samples += p["samples"][:1]
     viol += viol_crash
     ctx.log("c11sweep: %s classes %s" % (sw, classes))
-    cov, sviol, ssamples = shm.run_sched(ctx, b, "C11", 12000 if q else 600000)
+    cov, sviol, ssamples = shm.run_sched(ctx, b, "C11", 12000 if q else 400000)
     ctx.log("sched: %d scenarios, %d completed updates observed, stops %d" % (cov["scenarios"], cov["c11_observations"], cov["stops"]))
     viol += sviol
     inconclusive = None
